@@ -2,7 +2,7 @@ package main
 
 // Correspondence for the parser model (lean/HL/Model/Parser.lean), op "parse.tokens":
 // the real lexer's complete token stream goes to the Lean model of parser.go; the model's
-// journal and error list are compared with parser.Parse(text) — every field, every range,
+// journal and error list are compared with hxParse(text) — every field, every range,
 // every message.  Registered under C03 (its theorems rest on this model); C06Parser/C07
 // theorems use the same op.
 //
@@ -22,7 +22,6 @@ import (
 	"regexp"
 	"strings"
 
-	"github.com/juev/hledger-lsp/internal/parser"
 )
 
 func init() {
@@ -34,7 +33,7 @@ func init() {
 }
 
 func parseCase(text string) map[string]any {
-	j, errs := parser.Parse(text)
+	j, errs := hxParse(text)
 	return map[string]any{"text": hx(text), "toks": lexAll(text),
 		"impl": map[string]any{"j": journalJ(j), "errs": perrsJ(errs)}}
 }
